@@ -192,7 +192,7 @@ class ConcH:
                 C = np.zeros(tuple(shape) + out.shape, dtype=complex)
             C[iidx] = out
         f = self.carray(name, shape) if complex_ else self.rarray(name, shape)
-        full = np.asarray(fn(f))
+        full = np.asarray(fn(f.copy()))      # a copy: some routines scale their argument in place
         lin = np.tensordot(f, C, axes=(list(range(len(shape))), list(range(len(shape)))))
         self.eq('linear: no constant/higher-order part', full - lin, 0 * full, scale=float(np.max(np.abs(full), initial=0)))
         if complex_:
